@@ -69,6 +69,15 @@ def gen(S, tier):
     # a '--' tail needs somewhere to go: the trailing multi-valued argument
     use_tail = w.chance(0.3) and any(a[0] == "rest" for a in cmd["args"])
     tail, exp_args, exp_opts = apptree.gen_line(w, chain, fill_all=use_tail)
+    lenient_surplus = False
+    if plain_target and not use_tail and not cmd["subs"] and c.chance(0.15):
+        # a command that parses leniently and has no catch-all argument, called with more arguments
+        # than it declares: the extra tokens are skipped - and whatever follows them is still read
+        cmd["lenient"] = True
+        cmd["args"] = [a for a in cmd["args"] if a[0] != "rest"]
+        tail, exp_args, exp_opts = apptree.gen_line(w, chain, fill_all=True)
+        tail = list(tail) + ["zz%d" % i for i in range(w.randint(1, 2))]
+        lenient_surplus = True
     kinds = [k for k in SWITCHES if w.chance(0.3)]
     # at most one verbosity switch
     vs = [k for k in kinds if k in LEVEL_OF]
@@ -113,6 +122,7 @@ def gen(S, tier):
         "input": f.pick([[], [], ["y\n"], ["n\n"], ["\n"]]),
         # how the handler is attached: an object, or a factory that builds one when asked; with the
         # version switch after the path the handler is not needed at all - the factory may be broken
+        "app_style": c.chance(0.3), "lenient_surplus": lenient_surplus,
         "handler_kind": ("factory_raises" if ("version" in kinds and "help" not in kinds and all(p_ >= len(path) for _, _, p_ in switches) and f.chance(0.5))
                          else c.pick(["object", "object", "factory"])),
     }
@@ -198,6 +208,10 @@ def _run(sc):
     for flag, tag in TAGGED:
         script.append(["out", "<info>OUT-%s</info>" % tag, flag])
         script.append(["err", "<comment>ERR-%s</comment>" % tag, flag])
+    if sc.get("app_style"):
+        # a style the application registered through its configuration
+        script.append(["out", "<warn>OUT-W</warn>", None])
+        script.append(["err", "<warn>ERR-W</warn>", None])
     script.append(["section", "<info>SEC-one</info>", "<info>SEC-two</info>"])
     if sc.get("components", True):
         script.append(["indicator"])
@@ -224,8 +238,15 @@ def _run(sc):
 
     for h in all_hids(sc["app"]["commands"]):
         scripts[h] = script
-    app = apptree.build_app(sc["app"], scripts, inv, [(PRE_HANDLE, observer, -100)],
+    def hook(config):
+        if sc.get("app_style"):
+            from clikit.api.formatter import Style
+            config.add_style(Style("warn").fg("yellow").bold())
+
+    app = apptree.build_app(sc["app"], scripts, inv, [(PRE_HANDLE, observer, -100)], config_hook=hook,
                             handler_kinds={sc["hid"]: sc.get("handler_kind", "object")})
+    if sc.get("app_style"):
+        res.probe("style_registered_through_the_configuration")
     if sc.get("handler_kind") == "factory_raises":
         res.fault("handler_factory_raises")
         res.probe("version_with_unbuildable_handler")
@@ -359,6 +380,9 @@ def _run(sc):
             res.violate("verbosity", "stdout_lines", "line of level %r %s at verbosity %r (tokens %r)" % (flag, "missing" if should else "present", level, tokens))
         if ("ERR-%s\n" % tag in se) != should:
             res.violate("verbosity", "stderr_lines", "line of level %r %s at verbosity %r (tokens %r)" % (flag, "missing" if should else "present", level, tokens))
+    if sc.get("app_style") and ("OUT-W\n" not in so or "ERR-W\n" not in se):
+        res.violate("ansi" if not ("\x1b[" in o) else "handler", "application_style", "text written with the application's own style tag arrived as %r / %r" % (
+            [l for l in so.split("\n") if "OUT-W" in l], [l for l in se.split("\n") if "ERR-W" in l]))
     if "spin done" not in se or "3/3" not in se:
         res.violate("handler", "components", "progress indicator / progress bar output missing on stderr: %r" % se[-160:])
     if "SEC-two\n" not in so:
